@@ -234,16 +234,18 @@ inductive Pre
   | crash (c : Crash)
 deriving DecidableEq, Repr
 
-/-- `respond_without_state_change` over an arbitrary rule list -/
-def respondNoStateWith (ch : List Sw) (b : Behavior) (m : Model) (h : Handler) (st : SrvState) (r : Req) : Pre :=
-  if r.pdu.isEmpty then .crash .index else
-  match runChain b m st r ch with
+/-- after the default rules: `respond_after_default`, then `default_response_if_none` -/
+def finish (b : Behavior) (h : Handler) (st : SrvState) (r : Req) : RuleOut → Pre
   | .fire x => .resp x
   | .crash c => .crash c
   | .pass =>
     match h st r with
     | some x => .resp x
     | none => if b .none_ then .resp (.neg r.sid nrcGeneralReject) else .silent
+
+/-- `respond_without_state_change` over an arbitrary rule list (`request.service_id` of an empty PDU raises) -/
+def respondNoStateWith (ch : List Sw) (b : Behavior) (m : Model) (h : Handler) (st : SrvState) (r : Req) : Pre :=
+  if r.pdu.isEmpty then .crash .index else finish b h st r (runChain b m st r ch)
 
 def respondNoState := respondNoStateWith chain
 
